@@ -100,6 +100,7 @@ type MNode struct {
 	FrameID  int    // frame executed by this call (-1 none)
 	CallerID int    // frame that issued it (-1: host)
 	JPFailed string // "", "pre", "post"
+	JPAnswer Answer // the failing answer
 }
 
 // MFiring is one expected Aspect execution at a join point.
@@ -343,8 +344,11 @@ func (m *model) call(callerFrame *Frame, cx mctx, kind Kind, to common.Address, 
 		n.FrameID = child.ID
 		if failed, a := m.fire(true, to, cx.addr, data, value, n.Index, nil, ""); failed {
 			*w = *snap
-			n.JPFailed = "pre"
+			n.JPFailed, n.JPAnswer = "pre", a
 			n.Reverted = a.Kind == 2
+			if a.Kind == 2 {
+				n.Ret = RevertRet
+			}
 			return false, false, nil
 		}
 		var fok, frev bool
@@ -364,8 +368,14 @@ func (m *model) call(callerFrame *Frame, cx mctx, kind Kind, to common.Address, 
 		}
 		if failed, a := m.fire(false, to, cx.addr, data, value, n.Index, fret, errClass); failed {
 			*w = *snap
-			n.JPFailed = "post"
+			n.JPFailed, n.JPAnswer = "post", a
 			n.Reverted = a.Kind == 2
+			switch a.Kind {
+			case 2:
+				n.Ret = RevertRet
+			case 1:
+				n.Ret = fret // an out-of-gas join point keeps the callee's return data next to the error
+			}
 			m.res.Failed[child.ID] = true
 			return false, false, nil
 		}
@@ -431,6 +441,16 @@ func (m *model) call(callerFrame *Frame, cx mctx, kind Kind, to common.Address, 
 		if child != nil {
 			n.FrameID = child.ID
 			fok, frev, fret = m.run(child, mctx{addr: addr, caller: cx.addr, value: value, depth: cx.depth + 1, node: n.Index})
+		}
+		if fok && (len(fret) > 24576 || m.s.Fork >= world.London && len(fret) > 0 && fret[0] == 0xEF) {
+			// the init code returned, but the result is refused as contract code: exceptional failure that still hands
+			// the rejected bytes back through the entry point (the creating instruction sees no return data)
+			*w = *snap
+			n.Ret = fret
+			if child != nil {
+				m.res.Failed[child.ID] = true
+			}
+			return false, false, nil
 		}
 		if !fok {
 			*w = *snap
@@ -559,6 +579,10 @@ func (m *model) run(f *Frame, cx mctx) (ok, reverted bool, ret []byte) {
 		return true, false, nil
 	case TReturn:
 		return true, false, marker(f.ID).Bytes()
+	case TReturnEF:
+		return true, false, MarkerEF(f.ID).Bytes()
+	case TReturnBig:
+		return true, false, make([]byte, BigLen)
 	case TRevert:
 		m.res.Failed[f.ID] = true
 		return false, true, marker(f.ID).Bytes()
